@@ -516,6 +516,88 @@ def live_graph(r, c, bits_seq, res):
             return
 
 
+# ------------------------------------------------------------------ long candidate paths, walks as solutions
+def length_ladder(g, res, lengths):
+    """candidate paths of EVERY length in `lengths` (cells): a valid walk of exactly that many cells (a fixed walk through the graph,
+    bouncing back and forth when it reaches its end) and its broken variants - a cell repeated in place, a cell skipped, a jump to a
+    far cell, a step through a wall, one cell off the grid - each at the first, a middle and the last position. A rule that changes
+    with the length of the path (a fast path, a batch boundary, a cap) shows at the first length beyond its threshold."""
+    # the base walk: depth-first tour (with backtracking steps) of the component of the first non-isolated cell
+    start = next((v for v in g.cells if g.adj[v]), None)
+    if start is None:
+        return
+    tour, seen = [start], {start}
+
+    def dfs(v):
+        for w in sorted(g.adj[v]):
+            if w not in seen:
+                seen.add(w)
+                tour.append(w)
+                dfs(w)
+                tour.append(v)
+
+    import sys
+    sys.setrecursionlimit(max(sys.getrecursionlimit(), 10 * g.r * g.c + 1000))
+    dfs(start)
+    if len(tour) < 2:
+        return
+    cyc = tour + tour[-2:0:-1]  # there and back again: closed walk, can be repeated for ever
+    walls = [(a, b) for a in g.cells for b in ((a[0] + 1, a[1]), (a[0], a[1] + 1)) if b in g.adj and b not in g.adj[a]]
+    for L in lengths:
+        walk = tuple(cyc[i % len(cyc)] for i in range(L))
+        chk_path(g, res, walk, False, f"long-walk-valid|{lencls(L)}")
+        res.nontrivial(("ladder", g.r, g.c, str(g.bits), L))
+        for pos in sorted({0, L // 2, L - 1}):
+            v = walk[pos]
+            chk_path(g, res, walk[:pos] + (v,) + walk[pos:], False, f"long-walk-cell-repeated|{lencls(L + 1)}")
+            if 0 < pos < L - 1 and walk[pos - 1] != walk[pos + 1]:
+                chk_path(g, res, walk[:pos] + walk[pos + 1:], False, f"long-walk-cell-skipped|{lencls(L - 1)}")
+            far = max(g.cells, key=lambda q: (abs(q[0] - v[0]) + abs(q[1] - v[1]), q))
+            if abs(far[0] - v[0]) + abs(far[1] - v[1]) > 1 and L > 1:
+                chk_path(g, res, walk[:pos] + (far,) + walk[pos + 1:], False, f"long-walk-far-jump|{lencls(L)}")
+            chk_path(g, res, walk[:pos] + ((v[0], g.c),) + walk[pos + 1:], False, f"long-walk-one-cell-out-of-bounds-high|{lencls(L)}")
+            chk_path(g, res, walk[:pos] + ((-1, v[1]),) + walk[pos + 1:], False, f"long-walk-one-cell-out-of-bounds-negative|{lencls(L)}")
+        if walls and L >= 2:
+            # the valid walk, then a step through a wall at the very end / the very beginning
+            a, b = walls[0]
+            k = next((i for i in range(len(cyc)) if cyc[i] == a), None)
+            if k is not None:
+                w2 = tuple(cyc[(k - (L - 2) + i) % len(cyc)] for i in range(L - 1)) + (b,)
+                chk_path(g, res, w2, False, f"long-walk-through-wall-at-end|{lencls(L)}")
+                chk_path(g, res, w2[::-1], False, f"long-walk-through-wall-at-start|{lencls(L)}")
+
+
+def lencls(n):
+    return "len<=4" if n <= 4 else "len<=32" if n <= 32 else "len<=100" if n <= 100 else "len<=128" if n <= 128 else "len<=256" if n <= 256 else "len<=1000" if n <= 1000 else "len>1000"
+
+
+def walks(g, maxlen):
+    """every walk (cells may repeat, also the first and the last one) of 2..maxlen cells that is not a simple path"""
+    out = []
+
+    def ext(w):
+        if len(w) >= 2 and len(set(w)) < len(w):
+            out.append(tuple(w))
+        if len(w) < maxlen:
+            for nb in sorted(g.adj[w[-1]]):
+                ext(w + [nb])
+
+    for s0 in g.cells:
+        ext([s0])
+    return out
+
+
+def walk_forks(g, res, maxlen):
+    """solutions that are walks, not simple paths (the library accepts any valid path as a solution): the forking / path-following rule
+    is stated per INDEX of the solution, so a cell that occurs again later (the start revisited, the end passed through earlier) is judged
+    by where it stands, not by which cell it is"""
+    for w in walks(g, maxlen):
+        cls = "walk-revisits-" + "+".join(x for x, c in (("start", w[0] in w[1:-1]), ("end", w[-1] in w[1:-1]), ("closed", w[0] == w[-1])) if c) if (
+            w[0] in w[1:] or w[-1] in w[:-1]) else "walk-revisits-interior"
+        chk_forks(g, res, w, cls)
+        res.nontrivial(("walk", g.r, g.c, g.bits, w))
+
+
 # ------------------------------------------------------------------ structured larger mazes
 def structured_bits(r, c, name):
     edges = R.lattice_edges(r, c)
@@ -763,6 +845,16 @@ def task(t, res):
                     if bits % 97 == 0:
                         res.sample(dict(shape=[r, c], bits=bits, edges=g.E, components=len(R.components(g.adj)),
                                         path_candidates=len(path_candidates(g)), solutions=len(solutions(g, t["sol"]))), cap=2)
+        elif kind == "ladder":
+            r, c = t["shape"]
+            g = G(r, c, structured_bits(r, c, t["name"]))
+            length_ladder(g, res, t["lengths"])
+            res.count("ladder_graphs")
+        elif kind == "walks":
+            r, c = t["shape"]
+            for bits in range(t["start"], R.n_graphs(r, c), t["stride"]):
+                walk_forks(G(r, c, bits), res, t["maxlen"])
+                res.count("walk_graphs")
         elif kind == "structured":
             r, c = t["shape"]
             g = G(r, c, structured_bits(r, c, t["name"]))
@@ -796,6 +888,15 @@ def run(ctx):
         for sh in [(3, 4), (4, 3)]:
             for s in range(64):
                 tasks.append(dict(kind="range", shape=sh, start=s, stride=64, level="cheap"))
+    # candidate paths of every length 1..300 (thorough: ..1200 and a stride up to 6000) on structured graphs; walks as solutions
+    lad = list(range(1, 301)) if quick else list(range(1, 1201)) + list(range(1250, 6001, 250))
+    for sh, names in (((11, 11), ("serpentine", "full", "comb", "mod3")), ((4, 7), ("serpentine", "fullminus2")), ((15, 6), ("rings", "rows")), ((2, 2), ("full",)), ((1, 3), ("full",))):
+        for name in names:
+            for k in range(4):
+                tasks.append(dict(kind="ladder", shape=sh, name=name, lengths=lad[k::4]))
+    for sh, ml, stride in (((2, 2), 6, 1), ((1, 3), 6, 1), ((3, 1), 6, 1), ((2, 3), 5, 4), ((3, 2), 5, 4), ((3, 3), 5 if quick else 6, 64 if quick else 16)):
+        for s0 in range(stride):
+            tasks.append(dict(kind="walks", shape=sh, start=s0, stride=stride, maxlen=ml))
     for t in tasks:
         t["tier"] = ctx.tier
     ctx.pmap(MOD, "task", tasks)
@@ -805,6 +906,8 @@ def run(ctx):
     live += [dict(kind="live", shape=sh, start=s0, stride=16 if quick else 4, tier=ctx.tier) for sh in ((2, 3), (3, 2)) for s0 in range(16 if quick else 4)]
     live += [dict(kind="live", shape=(3, 3), start=s0, stride=8, tier=ctx.tier) for s0 in range(8)]
     ctx.pmap(MOD, "task", live)
+    for hs in (("7",) if ctx.quick else ("1", "4", "7", "4242")):  # slices again in interpreters with other hash seeds
+        ctx.pmap(MOD, "task", tasks[::6] + live[:2], hashseed=hs)
     full_shapes = SMALL + [(3, 3)] + ([] if quick else [(2, 4), (4, 2)])
     ctx.coverage.update(
         graph_spaces_complete={f"{r}x{c}": R.n_graphs(r, c) for r, c in full_shapes},
